@@ -43,23 +43,61 @@ class SSeq:
 class SArr:
     """N-d array as shape terms + element function (index tuple -> value).
 
-    ``store`` identifies the memory the array is a view of (None = fresh value
-    semantics); the engine uses it for in-place writes through views.
+    A *value* array has ``store is None`` and an immutable element function ``_fn``.
+    A *view* has a ``store`` (the memory it aliases), per-store-dimension offsets ``off`` and a
+    ``keep`` flag per store dimension (False = that dimension was fixed by an integer index).
+    Reads through a view are dynamic (they see later in-place writes, as numpy views do); every
+    value-producing operation snapshots its operands with ``snap``.
     """
 
-    def __init__(self, shape, fn, kind='real', store=None, off=None):
+    def __init__(self, shape, fn, kind='real', store=None, off=None, keep=None):
         self.shape = tuple(shape)
-        self.fn = fn
+        self._fn = fn
         self.kind = kind
         self.store = store
-        self.off = off  # offsets of a view into its store
+        if store is not None:
+            self.off = tuple(off) if off is not None else tuple(0 for _ in store.shape)
+            self.keep = tuple(keep) if keep is not None else tuple(True for _ in store.shape)
+        else:
+            self.off = self.keep = None
+
+    def to_store(self, idx):
+        it = iter(idx)
+        return tuple((num_term(next(it)) + o) if kp else o for o, kp in zip(self.off, self.keep))
+
+    def fn(self, idx):
+        if self.store is not None:
+            return self.store.fn(self.to_store(idx))
+        return self._fn(idx)
 
     @property
     def ndim(self):
         return len(self.shape)
 
     def __repr__(self):
-        return f'SArr(shape={self.shape}, kind={self.kind})'
+        return f'SArr(shape={self.shape}, kind={self.kind}, view={self.store is not None})'
+
+
+def snap(v):
+    """Element function of an array *as of now* (immune to later in-place writes)."""
+    if isinstance(v, SArr):
+        if v.store is not None:
+            sfn = v.store.fn
+            return lambda idx, sfn=sfn, v=v: sfn(v.to_store(idx))
+        return v._fn
+    if isinstance(v, SSeq):
+        return v.fn
+    raise TypeError(type(v))
+
+
+def snap_finite(v):
+    """Per-element finiteness predicate of an array as of now (None = every element finite)."""
+    if isinstance(v, SArr):
+        if v.store is not None and v.store.finite is not None:
+            f = v.store.finite
+            return lambda idx, f=f, v=v: f(v.to_store(idx))
+        return getattr(v, 'finite', None)
+    return None
 
 
 class SBag:
